@@ -81,6 +81,7 @@ def strategy_impl(draw, tier):
         "values": values,
         "carry": draw(st.sampled_from(["none", "dataset", "mislabelled"])),
         "keep_coords": draw(st.booleans()),
+        "flag_style": draw(st.sampled_from(["python", "python", "numpy", "int"])),   # how the keep_coords flag is spelled
         "boundary": draw(st.sampled_from(M.RULES)),
         "fill": draw(st.sampled_from([0.0, 1.0, -2.0])),
         "name": draw(st.sampled_from(["phi", "T", None])),
@@ -141,8 +142,10 @@ def check(case, ctx):
             da = da.assign_coords({d: (d, np.arange(sizes[d]) * -7.0 + 1000.0, {"units": "WRONG"})})
         return da
 
+    flag = {"python": bool, "numpy": np.bool_, "int": int}[case.get("flag_style", "python")]
+
     def run(da):
-        kw = dict(to=dict(case["to"]), boundary=case["boundary"], fill_value=case["fill"], keep_coords=case["keep_coords"])
+        kw = dict(to=dict(case["to"]), boundary=case["boundary"], fill_value=case["fill"], keep_coords=flag(case["keep_coords"]))
         if weighted:
             kw["metric_weighted"] = {n: (n,) for n in case["op_axes"]}
         return must_return(f"Grid.{case['op']}", getattr(grid, case["op"]), da, list(case["op_axes"]), **kw)
@@ -233,7 +236,7 @@ def check(case, ctx):
         n1 = case["op_axes"][0]
         uf = getattr(gridops, f"{case['op']}_{case['data_pos'][n1]}_to_{case['to'][n1]}", None)
         if uf is not None:
-            okw = dict(boundary={n1: case["boundary"]}, fill_value={n1: case["fill"]}, keep_coords=case["keep_coords"])
+            okw = dict(boundary={n1: case["boundary"]}, fill_value={n1: case["fill"]}, keep_coords=flag(case["keep_coords"]))
             sig = f"(q:{case['data_pos'][n1]})->(q:{case['to'][n1]})"
             bw = {"q": tuple(uf.boundary_width["X"])} if uf.boundary_width else None
             calls = {
